@@ -19,7 +19,7 @@ PID = 'C07'
 LEVEL = 'other'
 TECHNIQUE = ('symbolic execution of the bank constructors and response methods on symbolic reals; closed-form envelopes compared in the log domain '
              '(linear arithmetic over uninterpreted log/exp/sqrt with instantiated axioms), Newton search replaced by its exit condition')
-FUNCTIONS = ['filters:GaborFilterBank.__init__', 'filters:GaborFilterBank.get_impulse_response', 'filters:GaborFilterBank.get_frequency_response',
+FUNCTIONS = ['filters:ComplexGammatoneFilterBank._h', 'filters:GaborFilterBank.__init__', 'filters:GaborFilterBank.get_impulse_response', 'filters:GaborFilterBank.get_frequency_response',
              'filters:ComplexGammatoneFilterBank.__init__', 'filters:ComplexGammatoneFilterBank._calculate_temp_support',
              'filters:TriangularOverlappingFilterBank.supports', 'filters:Fbank.supports', 'filters:TriangularOverlappingFilterBank.get_impulse_response',
              'filters:Fbank.get_impulse_response', 'filters:ComplexGammatoneFilterBank.get_impulse_response']
@@ -33,9 +33,14 @@ EXPLANATION = (
     'envelope at diff_ang equals the threshold; the gammatone temporal support returned by the real _calculate_temp_support '
     '(Newton search replaced by its exit condition at the point the code evaluates) covers every sample whose envelope exceeds '
     'the threshold, for max_centered on and off; (S3) zero-phase supports straddle sample 0, causal gammatone supports start at '
-    '0; (S4) the peak gain of the two closed forms is consistent (documented Fourier pair) for both Gabor normalisations.')
-BOUNDS = {'quick': 'all sigma > 0 / alpha > 0 (symbolic), gammatone orders 3-6, Gabor impulse/frequency response evaluated at 4 sample points / 2 bins',
-          'thorough': 'gammatone orders 3-8'}
+    '0; (S4) the peak gain of the two closed forms is consistent (documented Fourier pair) for both Gabor normalisations; (S5) '
+    'every sample n of the Gabor impulse response in a buffer of W samples is the sum of the documented terms at times '
+    'congruent to n modulo W and contains the one nearest 0 (object arrays of exponent tokens, nlsat matching for all sigma, '
+    'xi); (S6) every sample of a causal gammatone impulse response is the periodised closed form c t^(n-1) exp(-alpha t) '
+    'exp(i xi t) for symbolic c, alpha, xi (index arithmetic on real NumPy integer arrays: int64 wrap-around is NumPy\'s own).')
+BOUNDS = {'quick': 'all sigma > 0 / alpha > 0 (symbolic), gammatone orders 3-6, Gabor impulse/frequency response evaluated at 4 sample points / 2 bins; '
+                   'Gabor sample placement for buffer widths 2,3,4,5,8; gammatone closed form for (order, width) = (4,5) (4,40) (8,600), support 1.5 x width',
+          'thorough': 'gammatone orders 3-8; placement widths 1-9, 12, 15; closed form also (3,7) (6,64) (8,1030)'}
 OUTSIDE = ['the central IDFT-agreement clause (see above)', 'straddling of sample 0 for Fbank and Gabor supports (needs numeric bounds on a cube root / on sigma*sqrt(const - 2 log sigma); z3 stays undecided)', 'magnitudes outside supports in a finite buffer (needs the same aliasing analysis)',
            'gammatone orders 1-2 and scale_l2_norm (excluded by the property)', 'floating point']
 ASSUMPTIONS = ['Gaussian / gamma envelopes decrease monotonically beyond their mode (closed forms)',
